@@ -13,9 +13,15 @@ Open Scope Q_scope.
 
 Definition clear_name (c : clear_t) : string :=
   match c with ClearNone => "none" | ClearLeft => "left" | ClearRight => "right" | ClearBoth => "both" end.
-Definition vshape (s : shape) : val :=
-  VObj [("style", VObj [("float", VStr (if s_left s then "left" else "right"))]); ("position_y", VNum (s_y s));
-        ("margin_height_", VNum (s_h s))].
+(* a placed float as the loop reads it: style['float'], position_y; [extra s] are its other attributes (the box
+   dimensions that margin_height() adds up, see the linked corollary below) *)
+Section Shapes.
+Variable T : Type.                       (* the placed floats, with whatever attributes they have *)
+Variable sh_of : T -> shape.             (* what the model reads of them *)
+Variable extra : T -> list (string * val).
+Definition vshape (t : T) : val :=
+  VObj (("style", VObj [("float", VStr (if s_left (sh_of t) then "left" else "right"))]) ::
+        ("position_y", VNum (s_y (sh_of t))) :: extra t).
 Definition vbox (c : clear_t) (py : Q) : val :=
   VObj [("style", VObj [("clear", VStr (clear_name c))]); ("position_y", VNum py)].
 Definition voq (o : oq) : val := match o with Some q => VNum q | None => VNone end.
@@ -44,7 +50,7 @@ Definition E2 ctx c py cm cl hyp (es y h : val) : env := E1 ctx c py cm cl hyp e
 Section Clear.
 Variable O : qops.
 Hypothesis HO : ops_ok O.
-Hypothesis HM : forall s, ocall O ".margin_height" [vshape s] = VNum (s_h s).
+Hypothesis HM : forall t, ocall O ".margin_height" [vshape t] = VNum (s_h (sh_of t)).
 
 Ltac unseal :=
   rewrite ?(qadd_eq _ HO), ?(qsub_eq _ HO), ?(qmul_eq _ HO), ?(qdiv_eq _ HO), ?(qmax_eq _ HO), ?(qmin_eq _ HO),
@@ -60,17 +66,18 @@ Definition mk ctx c py cm cl hyp (sh : eshape) : env :=
   | S1 es => E1 ctx c py cm cl hyp es
   | S2 es y h => E2 ctx c py cm cl hyp es y h
   end.
-Definition next_shape (c : clear_t) (s : shape) (sh : eshape) : eshape :=
-  if names c s then S2 (vshape s) (VNum (s_y s)) (VNum (s_h s))
-  else match sh with S0 | S1 _ => S1 (vshape s) | S2 _ y h => S2 (vshape s) y h end.
+Definition next_shape (c : clear_t) (t : T) (sh : eshape) : eshape :=
+  if names c (sh_of t) then S2 (vshape t) (VNum (s_y (sh_of t))) (VNum (s_h (sh_of t)))
+  else match sh with S0 | S1 _ => S1 (vshape t) | S2 _ y h => S2 (vshape t) y h end.
 
-Lemma body_step (A : Type) kret kerr ctx c py cm hyp cl s sh (k : env -> A) :
-  exec_block O A kret kerr loop_body (update "excluded_shape" (vshape s) (mk ctx c py cm cl hyp sh)) k =
-  k (mk ctx c py cm (stepv c hyp cl s) hyp (next_shape c s sh)).
+Lemma body_step (A : Type) kret kerr ctx c py cm hyp cl t sh (k : env -> A) :
+  exec_block O A kret kerr loop_body (update "excluded_shape" (vshape t) (mk ctx c py cm cl hyp sh)) k =
+  k (mk ctx c py cm (stepv c hyp cl (sh_of t)) hyp (next_shape c t sh)).
 Proof.
   unfold stepv, next_shape, names, or0, Qlt_b.
-  pose proof (HM s) as Hm.
-  destruct s as [sl sx sy sw sh0]. unfold vshape in *. cbn [s_left s_y s_h] in *.
+  pose proof (HM t) as Hm.
+  unfold vshape in *. set (X := extra t) in *. clearbody X.
+  destruct (sh_of t) as [sl sx sy sw sh0]. cbn [s_left s_y s_h] in *.
   destruct sh as [|es|es y h], c, sl, cl as [v|];
     unfold loop_body, get_clearance_body, mk, E0, E1, E2, vbox, clear_name, voq; cbn [app];
     ev; rewrite ?Hm; ev; unseal;
@@ -80,49 +87,40 @@ Proof.
 Qed.
 
 (* the whole loop *)
-Definition fold_shape (c : clear_t) (l : list shape) (sh : eshape) : eshape :=
-  fold_left (fun sh s => next_shape c s sh) l sh.
+Definition fold_shape (c : clear_t) (l : list T) (sh : eshape) : eshape :=
+  fold_left (fun sh t => next_shape c t sh) l sh.
 
-Lemma loop_spec (A : Type) kret kerr ctx c py cm hyp : forall (l : list shape) cl sh (k : env -> A),
+Lemma loop_spec (A : Type) kret kerr ctx c py cm hyp : forall (l : list T) cl sh (k : env -> A),
   gen_iter (fun v rho k' => exec_block O A kret kerr loop_body (update "excluded_shape" v rho) k')
            (map vshape l) (mk ctx c py cm cl hyp sh) k =
-  k (mk ctx c py cm (fold_left (stepv c hyp) l cl) hyp (fold_shape c l sh)).
+  k (mk ctx c py cm (fold_left (stepv c hyp) (map sh_of l) cl) hyp (fold_shape c l sh)).
 Proof.
-  induction l as [|s l IH]; intros cl sh k; [reflexivity|].
+  induction l as [|t l IH]; intros cl sh k; [reflexivity|].
   cbn [map gen_iter fold_left fold_shape]. rewrite body_step. apply IH.
 Qed.
 
 Lemma lookup_clearance ctx c py cm cl hyp sh : lookup "clearance" (mk ctx c py cm cl hyp sh) = voq cl.
 Proof. destruct sh; reflexivity. Qed.
 
-Definition vctx (shapes : list shape) : val := VObj [("excluded_shapes", VList (map vshape shapes))].
+Definition vctx (shapes : list T) : val := VObj [("excluded_shapes", VList (map vshape shapes))].
 Definition returns (x : val) (_ : env) (r : option val) : Prop := r = Some x.
 
 Theorem gen_get_clearance_fold shapes c py cm :
   run O get_clearance_body [("context", vctx shapes); ("box", vbox c py); ("collapsed_margin", VNum cm)]
-    (returns (voq (fold_left (stepv c (py + cm)) shapes None))) (fun _ => False).
+    (returns (voq (fold_left (stepv c (py + cm)) (map sh_of shapes) None))) (fun _ => False).
 Proof.
   unfold run.
-  assert (Hshape : exists s1 s2 s3 x it s5, get_clearance_body = [s1; s2; s3; SFor x it loop_body; s5])
-    by (do 6 eexists; reflexivity).
-  set (R := voq (fold_left (stepv c (py + cm)) shapes None)).
-  unfold get_clearance_body, vctx, vbox.
-  lazy -[gen_iter map vshape qadd qsub qmul qdiv qmax qmin qleb qeqb ocall returns R Qplus].
+  set (R := voq (fold_left (stepv c (py + cm)) (map sh_of shapes) None)).
+  (* the two assignments and the `for`, by conversion; then the loop lemma *)
+  change (gen_iter (fun v rho k' => exec_block O Prop (fun rho v0 => returns R rho (Some v0)) (fun _ => False)
+                                      loop_body (update "excluded_shape" v rho) k')
+                   (map vshape shapes) (mk (vctx shapes) c py cm None (qadd O py cm) S0)
+                   (fun rho => returns R rho (Some (lookup "clearance" rho)))).
   rewrite (qadd_eq _ HO).
-  change [("context", VObj [("excluded_shapes", VList (map vshape shapes))]);
-          ("box", VObj [("style", VObj [("clear", VStr (clear_name c))]); ("position_y", VNum py)]);
-          ("collapsed_margin", VNum cm); ("clearance", VNone); ("hypothetical_position", VNum (py + cm))]
-    with (mk (vctx shapes) c py cm None (py + cm) S0).
-  match goal with
-  | |- gen_iter ?F _ _ ?K =>
-      change (gen_iter (fun v rho k' => exec_block O Prop (fun rho v0 => returns R rho (Some v0)) (fun _ => False)
-                                          loop_body (update "excluded_shape" v rho) k')
-                       (map vshape shapes) (mk (vctx shapes) c py cm None (py + cm) S0)
-                       (fun rho => returns R rho (Some (lookup "clearance" rho))))
-  end.
   rewrite loop_spec. rewrite lookup_clearance. reflexivity.
 Qed.
 End Clear.
+End Shapes.
 
 (* ---- the interpreter-level fold is the model's get_clearance, up to == on the number *)
 Definition oq_eq (a b : oq) : Prop :=
@@ -159,14 +157,56 @@ Proof.
 Qed.
 
 (* get_clearance of the source returns None exactly when the model does, else a number == the model's *)
-Theorem gen_get_clearance O (HO : ops_ok O) (HM : forall s, ocall O ".margin_height" [vshape s] = VNum (s_h s))
-        shapes c py cm :
-  run O get_clearance_body [("context", vctx shapes); ("box", vbox c py); ("collapsed_margin", VNum cm)]
-    (fun _ r => exists v, r = Some (voq v) /\ oq_eq v (get_clearance shapes c (py + cm))) (fun _ => False).
+Theorem gen_get_clearance T sh_of extra O (HO : ops_ok O)
+        (HM : forall t : T, ocall O ".margin_height" [vshape T sh_of extra t] = VNum (s_h (sh_of t))) shapes c py cm :
+  run O get_clearance_body [("context", vctx T sh_of extra shapes); ("box", vbox c py); ("collapsed_margin", VNum cm)]
+    (fun _ r => exists v, r = Some (voq v) /\ oq_eq v (get_clearance (map sh_of shapes) c (py + cm))) (fun _ => False).
 Proof.
-  pose proof (gen_get_clearance_fold O HO HM shapes c py cm) as H.
+  pose proof (gen_get_clearance_fold T sh_of extra O HO HM shapes c py cm) as H.
   rewrite WV.proofs.PyNatural.run_natural in *.
   destruct (WV.proofs.PyNatural.run_out O get_clearance_body _) as [rho r|m]; [|exact H].
   unfold returns in H. subst r. eexists. split; [reflexivity|].
   unfold get_clearance. apply fold_stepv_model. exact I.
+Qed.
+
+(* ---- linked: excluded_shape.margin_height() answered by the Box methods regenerated from
+   formatting_structure/boxes.py (margin_height -> border_height -> padding_height) *)
+Require Import WV.base.PyLink WV.gen.GenBoxes.
+
+Record dims := mk_dims { d_h : Q; d_pt : Q; d_pb : Q; d_bt : Q; d_bb : Q; d_mt : Q; d_mb : Q }.
+Definition margin_height_of (d : dims) : Q := d_h d + d_pt d + d_pb d + d_bt d + d_bb d + d_mt d + d_mb d.
+Definition dims_fields (d : dims) : list (string * val) :=
+  [("height", VNum (d_h d)); ("padding_top", VNum (d_pt d)); ("padding_bottom", VNum (d_pb d));
+   ("border_top_width", VNum (d_bt d)); ("border_bottom_width", VNum (d_bb d));
+   ("margin_top", VNum (d_mt d)); ("margin_bottom", VNum (d_mb d))].
+
+(* a placed float with its box dimensions: s_h is what margin_height() returns *)
+Definition shape_of (lf : bool) (x y w : Q) (d : dims) : shape := mk_shape lf x y w (margin_height_of d).
+
+Lemma margin_height_linked n (lf : bool) y (d : dims) :
+  ocall (linked GenBoxes_table (S (S (S n)))) ".margin_height"
+    [VObj (("style", VObj [("float", VStr (if lf then "left" else "right"))]) :: ("position_y", VNum y) :: dims_fields d)]
+  = VNum (margin_height_of d).
+Proof.
+  destruct d as [h pt pb bt bb mt mb]. destruct lf;
+    lazy -[Qplus]; reflexivity.
+Qed.
+
+(* floats given by their side, position and box dimensions *)
+Record pfloat := mk_pfloat { pf_left : bool; pf_x : Q; pf_y : Q; pf_w : Q; pf_d : dims }.
+Definition pf_shape (p : pfloat) : shape := shape_of (pf_left p) (pf_x p) (pf_y p) (pf_w p) (pf_d p).
+
+
+(* nothing left abstract but the floats themselves: get_clearance of float.py calling margin_height / border_height /
+   padding_height of boxes.py, all regenerated from the source, returns the model's clearance, where the model's
+   margin-box height of a float is the sum of its dimensions *)
+Theorem gen_get_clearance_linked n (floats : list pfloat) c py cm :
+  run (linked GenBoxes_table (S (S (S n)))) get_clearance_body
+    [("context", vctx pfloat pf_shape (fun p => dims_fields (pf_d p)) floats); ("box", vbox c py);
+     ("collapsed_margin", VNum cm)]
+    (fun _ r => exists v, r = Some (voq v) /\ oq_eq v (get_clearance (map pf_shape floats) c (py + cm)))
+    (fun _ => False).
+Proof.
+  apply gen_get_clearance; [apply linked_ok|].
+  intros [lf x y w d]. apply (margin_height_linked n lf y d).
 Qed.
